@@ -86,14 +86,13 @@ var (
 // RunOne generates nothing: it executes scenario s (with an optional dry run
 // first when the schedule needs sizing) and returns the outcome.
 func RunOne(w Workload, s *scn.Scn, replay, keepTrace bool) *Exec {
-	needDry := false
-	if !replay {
-		for _, p := range s.Phases {
-			if p.Sched.Kind == "pct" {
-				needDry = true
-			}
-		}
-	}
+	// A sequential dry run of the same scenario comes first whenever the
+	// scenario has scheduled phases: it sizes PCT schedules and, more
+	// importantly, performs every one-time initialisation the scenario touches
+	// (MessageInfo.init, descriptor tables, ...), so that the scheduled run is
+	// a function of (tree, scenario) and not of what this process ran before.
+	needDry := len(s.Phases) > 0 && !s.NoDryRun
+	_ = replay
 	var steps []int64
 	if needDry {
 		d := NewExec(s)
@@ -208,13 +207,13 @@ func WorkerMain() {
 		trace    = flag.Bool("trace", false, "print the trace in replay mode")
 		gen      = flag.Uint64("gen", 0, "print the scenario generated from this seed and exit")
 		detEvery = flag.Int64("det-every", 50, "re-execute every n-th scenario from its recorded tape and compare traces")
-		dump     = flag.Bool("dump", false, "with -replay: also run generation again from the seed and report equality")
+		search   = flag.Int("search", 0, "with -replay: if >0, ignore the stored schedule and try this many fresh schedules, looking for the expected violation class; the first failing scenario is written to -save")
+		save     = flag.String("save", "", "with -search: where to write the failing scenario")
 	)
 	flag.Parse()
 	tags := *tagsF
 	known := loadKnown(*knownF)
 	raceLogPath = os.Getenv("PBSIM_RACELOG")
-	_ = dump
 
 	if *replay != "" {
 		s, err := scn.Load(*replay)
@@ -229,6 +228,46 @@ func WorkerMain() {
 		}
 		curOutFile = *out
 		installAbortHook(s)
+		if *search > 0 {
+			want := ""
+			if s.Expect != nil {
+				want = s.Expect.Class
+			}
+			for k := 0; k < *search; k++ {
+				c := s.Clone()
+				r := NewRng(Mix(c.Seed, uint64(k)+0x5ea7c4))
+				for pi := range c.Phases {
+					c.Phases[pi].Tape = nil
+					if len(c.Phases[pi].Clients) < 2 {
+						c.Phases[pi].Sched = scn.Sched{Kind: "tape"}
+						continue
+					}
+					if k%4 == 3 {
+						c.Phases[pi].Sched = scn.Sched{Kind: "random", Stay: []uint32{820, 973, 1014}[r.Intn(3)], SiteBias: r.Bool(), Seed: r.U64()}
+					} else {
+						c.Phases[pi].Sched = scn.Sched{Kind: "pct", Depth: 1 + k%3, Seed: r.U64()}
+					}
+				}
+				x := RunOne(w, c, false, false)
+				if x.Out.Violation != nil && (want == "" || x.Out.Violation.Class == want) {
+					x.FinalizeTapes()
+					c.Expect = x.Out.Violation
+					if *save != "" {
+						c.Save(*save)
+					}
+					if *out != "" {
+						writeJSON(*out, x.Out)
+					}
+					fmt.Printf("violation class=%s (schedule %d of search)\n", x.Out.Violation.Class, k)
+					os.Exit(1)
+				}
+			}
+			if *out != "" {
+				writeJSON(*out, &scn.Outcome{})
+			}
+			fmt.Println("no violation in search")
+			os.Exit(0)
+		}
 		x := RunOne(w, s, false, *trace)
 		if *out != "" {
 			writeJSON(*out, x.Out)
